@@ -524,6 +524,12 @@ impl ActorLifecycleGuard {
         crate::verif::point("guard.notified", self.actor.get_id().pid(), 0);
 
         if let Some(supervisor) = self.actor.try_get_supervisor() {
+            #[cfg(ractor_verif)]
+            crate::verif::point(
+                "guard.supread",
+                self.actor.get_id().pid(),
+                supervisor.get_id().pid() as i64,
+            );
             self.actor.unlink(supervisor);
         }
         #[cfg(ractor_verif)]
